@@ -220,6 +220,11 @@ class AliasSpace(Subspace):
                         if q and rep == "chunkwise" and dt not in ("f8", "M8[ns]"):
                             continue
                         cells.append((op, "ndarray", vc, dt, rep))
+        # the same operations with a boolean mask (mask buffer must stay intact as well)
+        for rep in ("contig", "chunkwise"):
+            for op in OPNAMES:
+                for kc, vc in (("ndarray", "ndarray"), ("pd_series", "pd_series"), ("ndarray", "pa_chunked")):
+                    cells.append((op, kc, vc, "f8", rep, "masked"))
         for rep in ("contig", "chunkwise"):
             for acc in ACCESSORS:
                 for kc in ("ndarray", "pd_series", "categorical", "pa_chunked"):
@@ -233,8 +238,9 @@ class AliasSpace(Subspace):
         return range(0, n, max(1, n // 40))
 
     def case(self, i):
-        op, kc, vc, dt, rep = self.cells[i]
-        return dict(op=op, key_cont=kc, val_cont=vc, dtype=dt, rep=rep)
+        op, kc, vc, dt, rep = self.cells[i][:5]
+        return dict(op=op, key_cont=kc, val_cont=vc, dtype=dt, rep=rep,
+                    masked=len(self.cells[i]) > 5)
 
     def run(self, case):
         from groupby_lib import GroupBy
@@ -282,7 +288,7 @@ class AliasSpace(Subspace):
             vk_ok = vkind in op.vkinds
         if not vk_ok:
             return res
-        use_mask = "bool" in masks
+        use_mask = "bool" in masks and case.get("masked", False)
         Vobj = V.obj
         VS = Vobj
         if not accessor and kind == "select" or opn in ("rolling_sum_g",):
@@ -328,25 +334,32 @@ class AliasSpace(Subspace):
         handles = writable_handles(r1)
         for nm, a in handles:
             scribble(a)
-        # public setters (copy-on-write does not track arrays that were wrapped with copy=False)
-        if isinstance(r1, (pd.Series, pd.DataFrame)) and len(r1):
-            for sl in (slice(None), slice(0, 1)):
+        # public setters.  No other pandas object may reference the result's blocks while it is
+        # written (copy-on-write would then copy first and hide a shared buffer), so the new values
+        # are computed from copies and nothing derived from r1 is kept alive.
+        def new_values(col):
+            a = col.to_numpy(copy=True)
+            if a.dtype.kind in "iuf":
+                return a + 7
+            if a.dtype.kind == "b":
+                return ~a
+            return a[::-1].copy()
+
+        import gc
+        if isinstance(r1, pd.Series) and len(r1):
+            try:
+                nv = new_values(r1)
+                gc.collect()
+                r1.iloc[0] = nv[0]
+                r1.iloc[:] = nv
+            except Exception:  # noqa
+                pass
+        elif isinstance(r1, pd.DataFrame) and len(r1):
+            for j in range(r1.shape[1]):
                 try:
-                    if isinstance(r1, pd.Series):
-                        cur = r1.iloc[sl]
-                        if cur.dtype.kind in "iuf":
-                            r1.iloc[sl] = (cur + 7).to_numpy()
-                        elif cur.dtype.kind == "b":
-                            r1.iloc[sl] = (~cur).to_numpy()
-                        else:
-                            r1.iloc[sl] = r1.iloc[::-1].iloc[sl].to_numpy()
-                    else:
-                        for j in range(r1.shape[1]):
-                            cur = r1.iloc[sl, j]
-                            if cur.dtype.kind in "iuf":
-                                r1.iloc[sl, j] = (cur + 7).to_numpy()
-                            else:
-                                r1.iloc[sl, j] = r1.iloc[::-1, j].iloc[sl].to_numpy()
+                    nv = new_values(r1.iloc[:, j])
+                    gc.collect()
+                    r1.iloc[:, j] = nv
                 except Exception:  # noqa
                     pass
         if not check_inputs(f"mutating the result ({', '.join(h for h, _ in handles) or 'setter'})"):
